@@ -131,3 +131,126 @@ fn push_then_pull_returns_the_header() {
     }
   }
 }
+
+// ---- further cross-checks of contracts the Verus unit U1 ASSUMES ------------------------------
+
+/// <Decoder<R> as ciborium_io::Read>::read_exact over an in-memory source: fills the whole buffer
+/// with the next bytes and advances, or fails exactly when fewer bytes remain.
+#[kani::proof]
+#[kani::unwind(8)]
+fn read_exact_matches_assumed_contract() {
+  let bytes: [u8; 6] = kani::any();
+  let len: usize = kani::any();
+  kani::assume(len <= 6);
+  let want: usize = kani::any();
+  kani::assume(want <= 4);
+  let input = &bytes[..len];
+  let mut d = Decoder::from(input);
+  let mut buf = [0u8; 4];
+  let r = d.read_exact(&mut buf[..want]);
+  if want <= len {
+    assert!(r.is_ok(), "read_exact failed although enough bytes remain");
+    let mut i = 0;
+    while i < want {
+      assert!(buf[i] == bytes[i], "read_exact delivered other bytes than the next ones");
+      i += 1;
+    }
+    assert!(d.offset() == want, "read_exact advanced by a different amount");
+    // what follows is the rest of the input
+    if want < len {
+      let mut one = [0u8; 1];
+      assert!(d.read_exact(&mut one).is_ok() && one[0] == bytes[want]);
+    }
+  } else {
+    assert!(r.is_err(), "read_exact succeeded although fewer bytes remain");
+  }
+}
+
+/// ciborium::value::Integer conversions used by decode_value: from(u64), from(i64), try_from(i128).
+#[kani::proof]
+fn integer_conversions_match_assumed_contract() {
+  let u: u64 = kani::any();
+  assert!(i128::from(Integer::from(u)) == u as i128);
+  let i: i64 = kani::any();
+  assert!(i128::from(Integer::from(i)) == i as i128);
+  let w: i128 = kani::any();
+  let in_range = w >= -(1i128 << 64) && w < (1i128 << 64);
+  match Integer::try_from(w) {
+    Ok(x) => assert!(in_range && i128::from(x) == w),
+    Err(_) => assert!(!in_range),
+  }
+}
+
+/// `h == Header::Break` is true exactly for the Break header (derived PartialEq; floats included).
+#[kani::proof]
+fn header_eq_break_matches_assumed_contract() {
+  let h = match kani::any::<u8>() % 10 {
+    0 => Header::Positive(kani::any()),
+    1 => Header::Negative(kani::any()),
+    2 => Header::Float(kani::any()),
+    3 => Header::Simple(kani::any()),
+    4 => Header::Tag(kani::any()),
+    5 => Header::Break,
+    6 => Header::Bytes(if kani::any() { Some(kani::any()) } else { None }),
+    7 => Header::Text(if kani::any() { Some(kani::any()) } else { None }),
+    8 => Header::Array(if kani::any() { Some(kani::any()) } else { None }),
+    _ => Header::Map(if kani::any() { Some(kani::any()) } else { None }),
+  };
+  assert!((h == Header::Break) == matches!(h, Header::Break));
+}
+
+/// UTF-8 validity as the Unicode standard defines it (Table 3-7): shortest form only, no surrogates,
+/// nothing above U+10FFFF.  Twin of vstd::utf8::valid_utf8 for the cross-check below.
+pub fn spec_valid_utf8(s: &[u8]) -> bool {
+  let mut i = 0;
+  while i < s.len() {
+    let b = s[i];
+    let need = if b < 0x80 {
+      0
+    } else if (0xC2..=0xDF).contains(&b) {
+      1
+    } else if (0xE0..=0xEF).contains(&b) {
+      2
+    } else if (0xF0..=0xF4).contains(&b) {
+      3
+    } else {
+      return false;
+    };
+    if i + need >= s.len() + (need == 0) as usize && need > 0 {
+      return false;
+    }
+    let mut k = 1;
+    while k <= need {
+      let c = s[i + k];
+      let (lo, hi) = if k == 1 {
+        match b {
+          0xE0 => (0xA0, 0xBF),
+          0xED => (0x80, 0x9F),
+          0xF0 => (0x90, 0xBF),
+          0xF4 => (0x80, 0x8F),
+          _ => (0x80, 0xBF),
+        }
+      } else {
+        (0x80, 0xBF)
+      };
+      if c < lo || c > hi {
+        return false;
+      }
+      k += 1;
+    }
+    i += need + 1;
+  }
+  true
+}
+
+/// core::str::from_utf8 (the validation String::from_utf8 uses) accepts exactly valid UTF-8.
+/// Bounded: byte strings of length <= 5 (covers every sequence form and every boundary pair).
+#[kani::proof]
+#[kani::unwind(8)]
+fn from_utf8_accepts_exactly_valid_utf8() {
+  let bytes: [u8; 5] = kani::any();
+  let len: usize = kani::any();
+  kani::assume(len <= 5);
+  let s = &bytes[..len];
+  assert!(core::str::from_utf8(s).is_ok() == spec_valid_utf8(s));
+}
